@@ -147,6 +147,12 @@ def gen_field(rng, derived, ft=None, plain_p=0.35, allow_generic=False, max_attr
             dom = dom[:nd]
             if f == "P" and f"{P}(9)" not in dom and rng.random() < 0.7:
                 dom[0] = f"{P}(9)"
+            # V(4) / V(5) are where the partial key / by functions answer None: keep them in most domains
+            if f in ("V", "T") and combo != ("-",) * 5 and rng.random() < 0.8:
+                for special in (f"{V}(5)", f"{V}(4)"):
+                    if special not in dom and len(dom) >= 2:
+                        dom[rng.randrange(len(dom))] = special
+                dom = list(dict.fromkeys(dom))
             return {"ft": f, "combo": combo, "key": {a: keysel[a][0] for a in M.ATTRS},
                     "keycaps": {a: sorted(keysel[a][1]) for a in M.ATTRS}, "by": bysel, "dom": dom}
     return None
